@@ -133,6 +133,38 @@ def module_state_sites(ctx):
     return out
 
 
+def escaping_defaults(ctx):
+    """Mutable default arguments that a function stores into an attribute which other code mutates in place: every object built with
+    the default then shares one container.  -> [(function, parameter, assign node, class, attribute, mutator effects)]"""
+    out = []
+    for g in ctx.repo.all_funcs():
+        for p, d in g.defaults.items():
+            if not isinstance(d, (ast.List, ast.Dict, ast.Set)):
+                continue
+            for n in ast.walk(g.node):
+                if isinstance(n, ast.Assign) and len(n.targets) == 1 and isinstance(n.targets[0], ast.Attribute):
+                    tgt = n.targets[0]
+                    v = n.value
+                    aliases = isinstance(v, ast.Name) and v.id == p
+                    if isinstance(v, ast.IfExp):
+                        # `p if <cond> else <fresh>` aliases the default when cond holds for the default value
+                        if isinstance(v.body, ast.Name) and v.body.id == p:
+                            cond = ast.unparse(v.test)
+                            if "is not None" in cond:
+                                aliases = True
+                            elif "!=" in cond and ast.unparse(d) in cond:
+                                aliases = False  # `p if p != {} else {}` : the default takes the fresh branch
+                            else:
+                                aliases = True
+                    if not aliases:
+                        continue
+                    t = ctx.types.ftypes(g).type_of(tgt.value)
+                    cls = t[1] if t and t[0] == "obj" else g.cls
+                    muts = [e for e in ctx.eff.writers(cls, tgt.attr, kinds=("mut",)) if e.op not in ("del",)] if cls else []
+                    out.append((g, p, n, cls, tgt.attr, muts))
+    return out
+
+
 def unreset_attrs(ctx):
     """(owner class, attr) -> Effect for everything a forward / backward run writes that initialize(True, True) does not
     reset and simulate() does not re-assign (the computation of C09 R9.4)."""
@@ -219,6 +251,13 @@ def hidden_state_rule(ctx, rule_id, roots, what, prop=None):
     for f, node, desc, _name in module_state_sites(ctx):
         if id(f.node) in ids:
             ctx.violation(f"state-outside-model:{f.qualname}", f.loc(node), f"{f.qualname}: {desc}: state kept outside the model objects survives initialize() and is shared between runs and between projects")
+    # a container shared by every object built with a default argument, mutated by this region's code
+    for g, p, n, cls, attr, muts in escaping_defaults(ctx):
+        here = [m for m in muts if id(m.func.node) in ids]
+        if here:
+            ctx.violation(f"shared-default:{cls}.{attr}", g.loc(n),
+                          f"the mutable default of `{p}` in {g.qualname} becomes {cls}.{attr} of every object built without that argument, and {here[0].func.qualname} "
+                          f"({here[0].loc}) changes it in place ({here[0].op}): what is written for one object shows up in all of them")
     ctx.end()
 
 
